@@ -491,6 +491,14 @@ func builderWrapsCorrectly(p *Prog, fn *ssa.Function) (ok bool, why string) {
 // is present exactly when required.
 func chainFilterStatus(p *Prog, s *Seg, v ssa.Value) (bool, string) {
 	chain := ctorChain(s, v)
+	if known, isNil := containerNilFact(s); known && isNil {
+		for _, l := range chain {
+			if isFilterCtor(l.Ctor) {
+				return false, "the exclusion filter is installed on the path where the list is nil"
+			}
+		}
+		return true, "" // nothing to exclude on this path
+	}
 	for _, l := range chain {
 		if isFilterCtor(l.Ctor) {
 			if !isContainerField(s, l.Call.Call.Args[1]) {
@@ -501,7 +509,7 @@ func chainFilterStatus(p *Prog, s *Seg, v ssa.Value) (bool, string) {
 			}
 			return true, ""
 		}
-		if l.Ctor.Pkg != nil && l.Ctor.Pkg == p.SPkg("command") && types.TypeString(l.Ctor.Signature.Results().At(0).Type(), nil) == reqGenT {
+		if l.Ctor.Pkg != nil && l.Ctor.Pkg == p.SPkg("command") && types.TypeString(l.Ctor.Signature.Results().At(0).Type(), nil) == reqGenT && !hasParamOfType(l.Ctor, reqGenT) {
 			ok, why := builderWrapsCorrectly(p, l.Ctor)
 			if !ok {
 				return false, FuncName(l.Ctor) + ": " + why
@@ -530,7 +538,7 @@ func checkExclusionWiring(p *Prog, r *Report) {
 				}
 				nsink++
 				k := 0
-				for _, s := range Paths(fn).Segs {
+				for _, s := range PathsInl(fn).Segs {
 					if !s.Has(c) {
 						continue
 					}
@@ -811,4 +819,14 @@ func factOperands(f Fact) []ssa.Value {
 		return []ssa.Value{b.X, b.Y}
 	}
 	return nil
+}
+
+// hasParamOfType: the function takes a parameter of that type (a decorator rather than a builder).
+func hasParamOfType(f *ssa.Function, t string) bool {
+	for _, prm := range f.Params {
+		if types.TypeString(prm.Type(), nil) == t {
+			return true
+		}
+	}
+	return false
 }
